@@ -161,9 +161,10 @@ class Runner:
 
         def job():
             try:
-                E.native_replay(root, [], [], self.dep, self.lock, extra_rt=())
+                rr = E.native_replay(root, [], [], self.dep, self.lock, extra_rt=(), selftest=True)
+                self.selftest = {k: v for k, v in rr.items() if str(k).startswith("selftest")}
             except Exception as ex:
-                log("prebuild failed:", ex)
+                self.selftest = {"error": str(ex)}
 
         t = threading.Thread(target=job, daemon=True)
         t.start()
@@ -340,6 +341,10 @@ class Runner:
                 return any("REPLAY panicked" in x and "VERIF-MARKER" in x for x in outs)
             return any(("REPLAY panicked" in x) and ("VERIF-ASSUME-VIOLATED" not in x) and ("VERIF-NO-SUCH-HARNESS" not in x) for x in outs)
 
+        pre.join()
+        st = getattr(self, "selftest", {})
+        if not st or not all("selftest ok" in v for v in st.values()):
+            self.inconclusive.append(f"reference register self-test on documented examples failed: {st}")
         # negative controls must be refuted AND reproduce
         ctl_report = []
         for o in controls:
@@ -465,6 +470,7 @@ class Runner:
                 "kani_wall_s": round(self.stats["kani_wall"], 1),
                 "acceptance_wall_s": round(self.stats["accept_wall"], 1),
                 "negative_controls": ctl_report,
+                "oracle_selftest": getattr(self, "selftest", {}),
                 "known_findings_hit": [{"role": k["role"], "unit": r["unit"]} for (r, k) in knowns],
                 "inconclusive": self.inconclusive[:40],
                 "unreproduced_counterexamples": len(unrepro),
